@@ -1,4 +1,4 @@
-use crate::wal::config::{PREFIX_META_SIZE, checksum64, debug_print};
+use crate::wal::config::{MAX_ALLOC, PREFIX_META_SIZE, checksum64, debug_print};
 use crate::wal::storage::SharedMmap;
 use rkyv::Deserialize as _;
 use rkyv_derive::{Archive, Deserialize, Serialize};
@@ -16,6 +16,20 @@ pub(crate) struct Metadata {
     pub(crate) owned_by: String,
     pub(crate) next_block_start: u64,
     pub(crate) checksum: u64,
+}
+
+/// Decode an entry header from the bytes that follow the 2-byte length prefix.
+/// The bytes come from disk, so the archive is validated instead of trusted, and a payload size
+/// no allocation could ever have produced is rejected.
+pub(crate) fn decode_metadata(bytes: &[u8]) -> Option<Metadata> {
+    let mut aligned = rkyv::AlignedVec::with_capacity(bytes.len());
+    aligned.extend_from_slice(bytes);
+    let archived = rkyv::check_archived_root::<Metadata>(&aligned[..]).ok()?;
+    let meta: Metadata = archived.deserialize(&mut rkyv::Infallible).ok()?;
+    if meta.read_size as u64 > MAX_ALLOC {
+        return None;
+    }
+    Some(meta)
 }
 
 #[derive(Clone, Debug)]
@@ -97,14 +111,7 @@ impl Block {
         }
 
         // Deserialize only the actual metadata bytes (skip the 2-byte length prefix)
-        let mut aligned = rkyv::AlignedVec::with_capacity(meta_len);
-        aligned.extend_from_slice(&meta_buffer[2..2 + meta_len]);
-
-        // SAFETY: `aligned` contains bytes we just read from our own file format.
-        // We bounded `meta_len` to PREFIX_META_SIZE and copy into an `AlignedVec`,
-        // which satisfies alignment requirements of rkyv.
-        let archived = unsafe { rkyv::archived_root::<Metadata>(&aligned[..]) };
-        let meta: Metadata = archived.deserialize(&mut rkyv::Infallible).map_err(|_| {
+        let meta: Metadata = decode_metadata(&meta_buffer[2..2 + meta_len]).ok_or_else(|| {
             std::io::Error::new(
                 std::io::ErrorKind::InvalidData,
                 "failed to deserialize metadata",
@@ -114,6 +121,12 @@ impl Block {
 
         // Read the actual data
         let new_offset = file_offset + PREFIX_META_SIZE as u64;
+        if new_offset + actual_entry_size as u64 > self.mmap.len() as u64 {
+            return Err(std::io::Error::new(
+                std::io::ErrorKind::InvalidData,
+                "entry extends past the end of the file",
+            ));
+        }
         let mut ret_buffer = vec![0; actual_entry_size];
         self.mmap.read(new_offset as usize, &mut ret_buffer);
 
